@@ -970,16 +970,19 @@ theorem model_constants_are_the_codes :
     ∧ (∀ cs, readExit cs .err = InputConsts.READ_ERROR)
     ∧ (∀ st, readExit [Expansion.plainChar (Char.ofNat 0)] st = InputConsts.READ_ERROR)
     ∧ (∀ s name args here, (execUtil s .unknown name args here).status = InputConsts.NOT_FOUND)
-    ∧ (∀ s args, args ≠ ["-v"] → args ≠ ["+v"] → (∀ o, args ≠ ["-o", o]) → (∀ o, args ≠ ["+o", o]) →
+    ∧ (∀ s args, args ≠ ["-v"] → args ≠ ["+v"] → args ≠ ["-m"] → args ≠ ["+m"] →
+         (∀ o, args ≠ ["-o", o]) → (∀ o, args ≠ ["+o", o]) →
          (execSet s args).status = InputConsts.SYNTAX_ERROR)
     ∧ (∀ bs : List Byte, InputConsts.READ_CHAR_MAX ≤ bs.length → utf8Check bs ≠ .more) := by
   refine ⟨rfl, fun _ => rfl, fun _ _ _ => rfl, rfl, rfl, fun _ => rfl, ?_, fun _ _ _ _ => rfl, ?_, ?_⟩
   · intro st; cases st <;> rfl
-  · intro s args h1 h2 h3 h4
+  · intro s args h1 h2 hm1 hm2 h3 h4
     unfold execSet
     split
     · exact absurd rfl h1
     · exact absurd rfl h2
+    · exact absurd rfl hm1
+    · exact absurd rfl hm2
     · exact absurd rfl (h3 _)
     · exact absurd rfl (h4 _)
     · rfl
@@ -1224,5 +1227,33 @@ theorem blank_lines_do_not_count (text : List Byte) (echoes executed : Bool) (k 
 
 
 example : (pull (parserOf (initState true [] [])) 4 [] [35, 99, 10]).res matches .ok [] := by decide
+
+
+/-- ★ an asynchronous command cannot take what follows on the shell's input: unless job control is in
+    effect for it (`Env::controls_jobs`: `monitor` on **and** not inside a subshell — so never inside
+    `( … )`, whatever `set -m` says), `async_body` gives it /dev/null as standard input: the command
+    starts with an empty stream on descriptor 0, the script cursor untouched, and the description the
+    shell had is what the pending `undo` restores; combined with `script_cursor_after_command` /
+    `stdin_restored_after_command` (which cover `.async` like every other command) the shell's descriptor
+    and offset after it are those before plus what was read through the shell's own descriptor -/
+theorem async_stdin_is_null (c : Cmd) (k : List K) (s : State) :
+    (∀ sv k', controlsJobs (.restore sv :: k') s = false)
+    ∧ (s.monitor = false → controlsJobs k s = false)
+    ∧ (controlsJobs k s = false →
+        ∃ sv, step (.cmd (.async c) :: k) s
+            = some (.cmd c :: .undo [stdinDesc s] :: .restore sv :: .cmd (.simple [] none) :: k,
+                    setDesc s { shared := false, data := [], pos := 0 })
+          ∧ (setDesc s { shared := false, data := [], pos := 0 }).stdin = []
+          ∧ (setDesc s { shared := false, data := [], pos := 0 }).inp = s.inp
+          ∧ ∀ t, stdinDesc (undoIn [stdinDesc s] t) = stdinDesc s) := by
+  refine ⟨fun sv k' => by simp [controlsJobs, inSubshell], fun h => by simp [controlsJobs, h], ?_⟩
+  intro h
+  exact ⟨{ vars := s.vars, aliases := s.aliases, verbose := s.verbose, portable := s.portable },
+    by simp [step, h], rfl, rfl, fun t => rfl⟩
+
+example : controlsJobs [] { initState true [] [] with monitor := true } = true := by decide
+example : (step [.cmd (.async (.simple [] none)), .restore ⟨[], [], false, false⟩]
+    { initState true [112, 10] [] with monitor := true }).map (·.2.stdin) = some [] := by decide
+
 
 end YashModel.Input
